@@ -292,6 +292,22 @@ class ModelBase:
             return r
         if name == 'enumerate':
             return AV(ty='enumerate', inner=a0, deps=d)
+        if name == 'map' and len(args) >= 2 and not kwargs:
+            # map(f, xs, ...): f applied item by item (lazily; the items are the same)
+            from .interp import known_items
+            cols = [known_items(x) for x in args[1:]]
+            if all(c is not None for c in cols) and len({len(c) for c in cols}) == 1:
+                elts = [interp.call_value(a0, list(row), {}, frame, st, node) for row in zip(*cols)]
+                return AV(ty='generator', elts=elts, deps=d, fresh=True)
+            items = [self.iter_item(interp, st, x, node, None) for x in args[1:]]
+            el = interp.call_value(a0, items, {}, frame, st, node)
+            return AV(ty='generator', elem=el, deps=d | ((el.deps or frozenset()) if el is not None else frozenset()), fresh=True,
+                      maybe_empty=any(self.maybe_empty_iter(x) for x in args[1:]) or None)
+        if name == 'filter' and len(args) == 2:
+            el = self.iter_item(interp, st, args[1], node, None)
+            if a0 is not None and a0.ty != 'None':
+                interp.call_value(a0, [el], {}, frame, st, node)
+            return AV(ty='generator', elem=el, deps=d, fresh=True, maybe_empty=True)
         if name == 'zip':
             if len(args) == 1 and args[0].star and args[0].elem is not None and args[0].elem.elts is not None:
                 # zip(*pairs): transpose a sequence of fixed-size tuples
